@@ -85,6 +85,7 @@ def run(pid: str, tier: str, seed: int, replay: str | None = None) -> int:
     # ---- 1. regenerate tables from the live tree, rebuild runner and proofs ----
     with fw.BuildLock():
         changed = fw.regenerate_tables()
+        fw.coq_makefile()
         ok_run, log_run = fw.make(mod.RUNNER_TARGETS)
         ok_prf, log_prf = fw.make(mod.PROOF_TARGETS)
     props_v = os.path.join(fw.COQ, mod.PROPS_FILE)
